@@ -237,7 +237,17 @@ enum World {
     Toy { counter: AtomicU64, locked: Mutex<u64> },
 }
 
+/// Data directories: tmpfs when there is one (DESIGN C18: "a real PersistenceManager in a tmpfs
+/// directory"; opening RocksDB costs ~50 ms there and 0.3-1 s on the shared disk under load, and
+/// nothing judged here depends on fsync), else /verif/target/tmp. `C18_NO_SHM=1` forces the disk.
 fn tmp_root() -> PathBuf {
+    let shm = PathBuf::from("/dev/shm");
+    if std::env::var("C18_NO_SHM").is_err() && shm.is_dir() {
+        let d = shm.join("verif-c18");
+        if std::fs::create_dir_all(&d).is_ok() {
+            return d;
+        }
+    }
     PathBuf::from("/verif/target/tmp")
 }
 
@@ -273,6 +283,7 @@ fn cleanup() {
             }
         }
     }
+    let _ = std::fs::remove_dir(PathBuf::from("/dev/shm/verif-c18")); // only if empty (no other run is using it)
 }
 
 fn drain_pool() {
@@ -1011,8 +1022,14 @@ fn stress_tail(ctx: &Ctx, trials: u64, threads: usize, quota: usize) -> (Value, 
                 let (w, gate) = (w.clone(), gate.clone());
                 std::thread::spawn(move || {
                     gate.fetch_add(1, Ordering::SeqCst);
+                    let mut spins = 0u32;
                     while gate.load(Ordering::SeqCst) < threads as u64 {
                         std::hint::spin_loop();
+                        spins += 1;
+                        if spins % 256 == 0 {
+                            // on an oversubscribed box the others may not be on a CPU yet
+                            std::thread::yield_now();
+                        }
                     }
                     guarded(|| w.run(&Op::CreateNode(t as u64 + 1))).unwrap_or_else(OpRes::Panic)
                 })
@@ -1052,10 +1069,12 @@ fn drivers(ctx: &Ctx) -> Vec<(Driver, Vec<Option<usize>>, u64)> {
     let mut v = vec![];
     // 2 creators, nodes, quota 1 and 2 (unbounded in both tiers)
     for q in [1usize, 2] {
-        v.push((t(&format!("2xcreate_node/q{q}"), Some(q), None, vec![vec![Op::CreateNode(1)], vec![Op::CreateNode(2)]], true), all.clone(), u64::MAX));
+        // quick: quota 1 unbounded (the racing case), quota 2 up to bound 3
+        let b = if ctx.quick() && q == 2 { vec![Some(0), Some(1), Some(2), Some(3)] } else { all.clone() };
+        v.push((t(&format!("2xcreate_node/q{q}"), Some(q), None, vec![vec![Op::CreateNode(1)], vec![Op::CreateNode(2)]], true), b, u64::MAX));
     }
-    // 2 creators, relationships, quota 1
-    v.push((t("2xcreate_edge/q1", None, Some(1), vec![vec![Op::CreateEdge(1)], vec![Op::CreateEdge(2)]], true), all.clone(), u64::MAX));
+    // 2 creators, relationships, quota 1 (same code shape as nodes: quick stops at bound 3)
+    v.push((t("2xcreate_edge/q1", None, Some(1), vec![vec![Op::CreateEdge(1)], vec![Op::CreateEdge(2)]], true), if ctx.quick() { vec![Some(0), Some(1), Some(2), Some(3)] } else { all.clone() }, u64::MAX));
     // create+delete || create, quota 1
     let cd = t("create_delete_node||create_node/q1", Some(1), None, vec![vec![Op::CreateNode(1), Op::DeleteNode(1)], vec![Op::CreateNode(2)]], true);
     // create,create || recover (concurrent recover: only reconciliation is judged), quota 2
@@ -1141,8 +1160,11 @@ fn main() {
             cleanup();
             return;
         }
+        let t_phase = Instant::now();
         let st = self_test(ctx);
         ctx.cov("scheduler_self_test", st);
+        let self_test_s = t_phase.elapsed().as_secs_f64();
+        let t_phase = Instant::now();
 
         // ---- sequential histories
         let mut hv = vec![];
@@ -1162,6 +1184,9 @@ fn main() {
         }
         ctx.cov("sequential_histories", json!({"alphabet": "create(next id) | delete(oldest live) | recover; quota 1,2", "max_len": hlen, "histories": h_total, "steps": h_steps, "distinct_traces": h_out}));
 
+        let histories_s = t_phase.elapsed().as_secs_f64();
+        let t_phase = Instant::now();
+        let mut confirm_s = 0.0f64;
         // ---- schedules
         let mut per_driver = vec![];
         let mut total_sched = 0u64;
@@ -1200,8 +1225,9 @@ fn main() {
                 *n_by_sig.entry(v.sig.clone()).or_default() += 1;
             }
             for v in &vios {
-                let key = format!("{}|{}", d.name, v.sig);
+                let key = v.sig.clone();
                 if confirmed.insert(key) {
+                    let t_c = Instant::now();
                     let sched: Vec<(usize, &'static str)> = v.schedule.iter().map(|s| (s.tid, s.label)).collect();
                     let a = run_schedule(&d, &sched, &cfg).unwrap_or_else(|e| die(ctx, &format!("replay of a violating schedule failed: {e}")));
                     let b = run_schedule(&d, &sched, &cfg).unwrap_or_else(|e| die(ctx, &format!("replay of a violating schedule failed: {e}")));
@@ -1209,6 +1235,7 @@ fn main() {
                     if a.obs != b.obs || !sa.contains(&v.sig) {
                         die(ctx, &format!("nondeterministic replay: driver {} schedule {} gave {:?} then {:?}", d.name, sched_json(&v.schedule), a.obs, b.obs));
                     }
+                    confirm_s += t_c.elapsed().as_secs_f64();
                 }
                 ctx.violation(
                     &v.sig,
@@ -1221,10 +1248,13 @@ fn main() {
             per_driver.push(json!({"driver": d.name, "threads": d.threads.len(), "max_decisions": last_stats.max_len, "per_bound": per_bound, "schedules_by_preemptions_last_bound": last_stats.by_preemptions, "outcomes_last_bound": top.iter().take(6).collect::<Vec<_>>(), "violation_classes": n_by_sig}));
             ctx.sample(json!({"driver": d.name, "outcomes": top.iter().take(3).collect::<Vec<_>>()}));
         }
+        let schedules_s = t_phase.elapsed().as_secs_f64();
+        let t_phase = Instant::now();
         // ---- labelled sampling tail: free-running threads (no baton). Can only add a violation.
-        let trials = ctx.tier.pick(2000u64, 20000u64);
+        let trials = ctx.tier.pick(500u64, 10000u64);
         let (tail_cov, tail_v) = stress_tail(ctx, trials, 4, 1);
         ctx.cov("sampling_tail", tail_cov);
+        ctx.cov("phase_wall_s", json!({"self_test": self_test_s, "sequential_histories": histories_s, "schedules_incl_confirmation": schedules_s, "confirmation_replays_on_fresh_managers": confirm_s, "sampling_tail": t_phase.elapsed().as_secs_f64()}));
         if let Some((sig, msg, w)) = tail_v {
             ctx.violation(&sig, msg, w);
         }
